@@ -1,11 +1,11 @@
 (* Extract.v — extraction of the executable model for the correspondence check.
    Only the directives of ExtrOcamlBasic are used; N, Z, positive, nat and byte stay the
    extracted inductive types.  Writes model.ml / model.mli into the directory coqc runs in. *)
-Require Import Bytes Codes Local Local6531 Domain Ip Special Email Api GenModel Cli Kit LocalA DomainA Local6531A IpA StrA SpecialA.
+Require Import Bytes Codes Local Local6531 Domain Ip Special Email Api GenModel Cli Kit LocalA DomainA Local6531A IpA StrA SpecialA EmailA.
 From Coq Require Import Strings.Byte.
 Require Import ExtrOcamlBasic.
 Extraction Language OCaml.
 Extraction "model.ml"
   Byte.of_N Byte.to_N
   local local6531 ascii_domain ipv4 ipv6 ipaddr special_domain tld_lookup
-  utf8_domain email judge step run init_state check_ip utf8_next gen_row gen_domain_line trim_line sanitize file_lines kit_step kit0 localA ascii_domainA local6531A ipv4A ipv6A ipaddrA specialA.
+  utf8_domain email judge step run init_state check_ip utf8_next gen_row gen_domain_line trim_line sanitize file_lines kit_step kit0 localA ascii_domainA local6531A ipv4A ipv6A ipaddrA specialA emailA.
